@@ -102,6 +102,8 @@ class Alignment:
           continue
         elif char == ",":
           if version == "gfa2":
+            if not valid and not re.fullmatch(r"[0-9]+(,[0-9]+)*", string):
+              break
             t = gfapy.Trace._from_string(string)
             if not valid:
               t.validate()
